@@ -293,5 +293,181 @@ func init() {
 		}
 		fmt.Fprintf(&e.out, "/-- frameworkImpl.Evictor() returns a new proxy per call -/\ndef evictorFreshPerCall : Bool := %v\n", fresh)
 		fmt.Fprintf(&e.out, "/-- the lock taken by evictorProxy.Evict (%v) is one object for all callers of handle.Evictor().Evict -/\ndef proxyLockShared : Bool := %v\n", w.lockExpr, shared)
+		e.c16ArbFacts()
 	}
+}
+
+// ---- arbitration facts (filter.go): the skip condition of getUnavailablePods, the retryable filter chain of
+// initFilters with the gate(s) guarding each member, and the evict-annotation bypass of both pod filters.
+
+// c16Leaves flattens a boolean expression over one operator into (negated?, callee name) leaves; ok=false when
+// operators are mixed or a leaf is not a (negated) call.
+func c16Leaves(x ast.Expr, op token.Token) (out [][2]string, ok bool) {
+	switch v := x.(type) {
+	case *ast.ParenExpr:
+		return c16Leaves(v.X, op)
+	case *ast.BinaryExpr:
+		if v.Op != op {
+			return nil, false
+		}
+		l, ok1 := c16Leaves(v.X, op)
+		r, ok2 := c16Leaves(v.Y, op)
+		return append(l, r...), ok1 && ok2
+	case *ast.UnaryExpr:
+		if v.Op == token.NOT {
+			if c, isCall := v.X.(*ast.CallExpr); isCall {
+				return [][2]string{{"true", c16Callee(c)}}, true
+			}
+		}
+		return nil, false
+	case *ast.CallExpr:
+		return [][2]string{{"false", c16Callee(v)}}, true
+	}
+	return nil, false
+}
+
+func c16Callee(c *ast.CallExpr) string {
+	switch f := c.Fun.(type) {
+	case *ast.Ident:
+		return f.Name
+	case *ast.SelectorExpr:
+		return f.Sel.Name
+	}
+	return "?"
+}
+
+func c16TopOp(x ast.Expr) token.Token {
+	for {
+		if p, ok := x.(*ast.ParenExpr); ok {
+			x = p.X
+			continue
+		}
+		break
+	}
+	if b, ok := x.(*ast.BinaryExpr); ok {
+		return b.Op
+	}
+	return token.LAND // a single leaf counts as a conjunction of one
+}
+
+func (e *ext) c16ArbFacts() {
+	arb := "pkg/descheduler/controllers/migration/arbitrator"
+	// 1. getUnavailablePods: `for … { if <cond> { continue } … }`
+	podPred := map[string]int{"IsPodActive": 1, "IsPodReady": 2}
+	conj, leaves, found := false, "", false
+	if fd := e.funcDecl(arb, "filter", "getUnavailablePods"); fd != nil && fd.Body != nil {
+		ast.Inspect(fd.Body, func(n ast.Node) bool {
+			rs, ok := n.(*ast.RangeStmt)
+			if !ok || found || len(rs.Body.List) == 0 {
+				return true
+			}
+			is, ok := rs.Body.List[0].(*ast.IfStmt)
+			if !ok || is.Init != nil || is.Else != nil || len(is.Body.List) != 1 {
+				return true
+			}
+			if br, ok := is.Body.List[0].(*ast.BranchStmt); !ok || br.Tok != token.CONTINUE {
+				return true
+			}
+			op := c16TopOp(is.Cond)
+			ls, ok := c16Leaves(is.Cond, op)
+			if !ok || (op != token.LAND && op != token.LOR) {
+				e.fail("getUnavailablePods: skip condition is not a flat &&/|| of (negated) calls")
+				return true
+			}
+			found, conj = true, op == token.LAND
+			var parts []string
+			for _, l := range ls {
+				parts = append(parts, fmt.Sprintf("(%s, %d)", l[0], podPred[l[1]]))
+			}
+			leaves = strings.Join(parts, ", ")
+			return true
+		})
+	}
+	if !found {
+		e.fail("getUnavailablePods: `if cond { continue }` at the head of the range loop not found")
+	}
+	fmt.Fprintf(&e.out, "/-- getUnavailablePods skips a pod when this holds: (negated, predicate) leaves, 1 IsPodActive 2 IsPodReady 0 other -/\ndef arbUnavailSkip : List (Bool × Nat) := [%s]\n", leaves)
+	fmt.Fprintf(&e.out, "/-- … joined by && (true) or || (false) -/\ndef arbUnavailSkipConj : Bool := %v\n", conj)
+
+	// 2. initFilters: every `retryableFilterFuncs = append(retryableFilterFuncs, f.X)` with the gates named in the enclosing if
+	gateCode := map[string]int{"EvictionGateMaxUnavailablePerWorkload": 1, "EvictionGateMaxMigratingPerWorkload": 2, "EvictionGateMaxMigratingPerNode": 3,
+		"EvictionGateMaxMigratingPerNamespace": 4, "EvictionGateMaxMigratingGlobally": 5, "EvictionGateExpectedReplicas": 6, "EvictionGateBarePods": 7}
+	filterCode := map[string]int{"filterMaxMigratingGlobally": 5, "filterMaxMigratingPerNode": 3, "filterMaxMigratingPerNamespace": 4,
+		"filterMaxMigratingOrUnavailablePerWorkload": 12}
+	var chain []string
+	annRetry, annNonRetry := false, false
+	if fd := e.funcDecl(arb, "filter", "initFilters"); fd != nil && fd.Body != nil {
+		for _, st := range fd.Body.List {
+			is, ok := st.(*ast.IfStmt)
+			if !ok || len(is.Body.List) != 1 {
+				continue
+			}
+			as, ok := is.Body.List[0].(*ast.AssignStmt)
+			if !ok || len(as.Lhs) != 1 || c16ExprString(as.Lhs[0]) != "retryableFilterFuncs" || len(as.Rhs) != 1 {
+				continue
+			}
+			call, ok := as.Rhs[0].(*ast.CallExpr)
+			if !ok || c16Callee(call) != "append" || len(call.Args) != 2 {
+				continue
+			}
+			name := ""
+			if sel, ok := call.Args[1].(*ast.SelectorExpr); ok {
+				name = sel.Sel.Name
+			}
+			// the condition must be `!skipped(g)` or `!skipped(g1) || !skipped(g2)`: the member is dropped only when all its gates are skipped
+			ls, ok := c16Leaves(is.Cond, c16TopOp(is.Cond))
+			var gates []string
+			good := ok && (len(ls) == 1 || c16TopOp(is.Cond) == token.LOR)
+			for _, l := range ls {
+				if l[0] != "true" || l[1] != "isEvictionGateSkipped" {
+					good = false
+				}
+			}
+			ast.Inspect(is.Cond, func(n ast.Node) bool {
+				if sel, ok := n.(*ast.SelectorExpr); ok {
+					if c, ok := gateCode[sel.Sel.Name]; ok {
+						gates = append(gates, fmt.Sprint(c))
+					} else if strings.HasPrefix(sel.Sel.Name, "EvictionGate") {
+						good = false
+					}
+				}
+				return true
+			})
+			if !good {
+				e.fail("initFilters: guard of retryable filter %s is not a disjunction of !isEvictionGateSkipped(known gate)", name)
+			}
+			chain = append(chain, fmt.Sprintf("(%d, [%s])", filterCode[name], strings.Join(gates, ", ")))
+		}
+		// 3. f.retryablePodFilter / f.nonRetryablePodFilter = func(pod) bool { return HaveEvictAnnotation(pod) || <chain>(pod) }
+		ast.Inspect(fd.Body, func(n ast.Node) bool {
+			as, ok := n.(*ast.AssignStmt)
+			if !ok || len(as.Lhs) != 1 || len(as.Rhs) != 1 {
+				return true
+			}
+			lhs := c16ExprString(as.Lhs[0])
+			fl, ok := as.Rhs[0].(*ast.FuncLit)
+			if !ok || (lhs != "f.retryablePodFilter" && lhs != "f.nonRetryablePodFilter") || len(fl.Body.List) == 0 {
+				return true
+			}
+			ret, ok := fl.Body.List[len(fl.Body.List)-1].(*ast.ReturnStmt)
+			if !ok || len(ret.Results) != 1 || len(fl.Body.List) != 1 {
+				return true
+			}
+			ls, ok := c16Leaves(ret.Results[0], token.LOR)
+			want := map[string]string{"f.retryablePodFilter": "retryablePodFilters", "f.nonRetryablePodFilter": "podFilter"}[lhs]
+			if ok && len(ls) == 2 && ls[0] == [2]string{"false", "HaveEvictAnnotation"} && ls[1] == [2]string{"false", want} {
+				if lhs == "f.retryablePodFilter" {
+					annRetry = true
+				} else {
+					annNonRetry = true
+				}
+			}
+			return true
+		})
+	} else {
+		e.fail("filter.initFilters not found")
+	}
+	fmt.Fprintf(&e.out, "/-- initFilters: members of the retryable chain in source order (5 globally, 3 per node, 4 per namespace, 12 per workload) with the gates whose skipping drops them -/\ndef arbRetryableChain : List (Nat × List Nat) := [%s]\n", strings.Join(chain, ", "))
+	fmt.Fprintf(&e.out, "/-- retryablePodFilter = HaveEvictAnnotation(pod) || retryablePodFilters(pod) -/\ndef arbAnnBypassRetryable : Bool := %v\n", annRetry)
+	fmt.Fprintf(&e.out, "/-- nonRetryablePodFilter = HaveEvictAnnotation(pod) || podFilter(pod) -/\ndef arbAnnBypassNonRetryable : Bool := %v\n", annNonRetry)
 }
